@@ -15,4 +15,33 @@ CHECKS = {
         "assumptions": ["limit 0 is unspecified and not exercised", "the sorted-map model in harness/c12 (DESIGN A.6) is the trusted reference",
                         "crash = all threads of the process stop at a numbered simfs call; power loss drops un-synced data and directory entries"],
     },
+    "C10": {
+        "profile": "seqsim", "pkg": "trie", "test": "TestC10", "level": "exploration", "env": {"VERIF_PROP": "C10"},
+        "quick": {"workers": 8, "checks": 6000}, "thorough": {"workers": 14, "checks": 150000},
+        "timeout": {"quick": "10m", "thorough": "3h"},
+        "rule": "seeded histories (rapid) of <=14 operations over the real sparse Merkle trie on a map store with a droppable write buffer: update batches (insert/overwrite/delete, "
+                "keys of length 1/2/3/32/38 from three families: uniform, long shared prefix, differences at 8-bit subtree boundaries), lost batch (node writes dropped, trie "
+                "continues from the previous root), reopen from stored nodes, rebuild of the same map in another order/batching, and prove+verify of query sets with present and "
+                "absent keys followed by 3 single-field tamperings of the decoded proof. Non-trivial = history contains a delete or a proof; distinct = distinct histories",
+        "real": ["pkg/trie/smt (Update, Prove, Verify, subtree encoding)", "smt.Proof codec"],
+        "stub": ["node store: in-memory map with a droppable write buffer (the storage seam)"],
+        "probes": ["reopen", "tamper_still_valid_but_true"],
+        "assumptions": ["values are 32-byte hashes or empty (=delete), as every caller in the repository uses the trie", "no duplicate keys inside one batch (their meaning is unspecified)",
+                        "reference root: refmodel.SMTRoot, written from the LIP-0039 definition (DESIGN A.4)", "SetSubtreeHeight(4) is not exercised (no caller in the repository)",
+                        "the leaf a non-inclusion proof names on the query's path is not treated as a claim about the map"],
+    },
+    "C11": {
+        "profile": "seqsim", "pkg": "trie", "test": "TestC11", "level": "exploration", "env": {"VERIF_PROP": "C11"},
+        "quick": {"workers": 8, "checks": 5000}, "thorough": {"workers": 14, "checks": 120000},
+        "timeout": {"quick": "10m", "thorough": "3h"},
+        "rule": "seeded histories (rapid) over one long-lived RegularMerkleTree on a map store: start length 0..40 or 2^k-1/2^k/2^k+1 (k<=7) reached by single appends, then <=12 operations: "
+                "append (each preceded by CalculateRootFromAppendPath prediction), inclusion proof for a leaf subset (verify, altered leaf, other root, tampered proof, update-through-proof), "
+                "in-place Update, right witness at a drawn position against the append path recorded at that size, reload from storage. Root/size compared with the LIP-0031 reference after every mutation. "
+                "Non-trivial = history contains a proof, update, witness or reload; distinct = distinct histories",
+        "real": ["pkg/trie/rmt (Append, Update, GenerateProof, GenerateRightWitness, VerifyProof, CalculateRoot*, reload)"],
+        "stub": ["node store: in-memory map (the storage seam)"],
+        "probes": ["reload"],
+        "assumptions": ["leaf data are unique (the tree indexes nodes by hash)", "reference root: refmodel.RMTRoot written from the LIP-0031 definition (DESIGN A.5)",
+                        "right witnesses are only checked while no in-place Update happened (recorded append paths are stale afterwards by design)"],
+    },
 }
